@@ -349,6 +349,11 @@ def build(ast, sp: int = 0, child_sp: int = 0):
     else:
         ctor = ast[0]
         fns = _SPELL[ctor]
+        if _has_union_below(ast):
+            # typing caches List[X] & co. by *equality* of X, and Union equality ignores member order: without this,
+            # List[Union[float, int]] would be the object built earlier for List[Union[int, float]] (members in that order)
+            for f in t._cleanups:  # type: ignore[attr-defined]
+                f()
         r = fns[sp % len(fns)](ast, child_sp)
     pin(r)
     _BUILD_CACHE[k] = r
@@ -356,6 +361,15 @@ def build(ast, sp: int = 0, child_sp: int = 0):
 
 
 _MISSING = object()
+
+
+def _has_union_below(ast, top=True) -> bool:
+    if isinstance(ast, str):
+        return False
+    if not top and ast[0] in ('union', 'optional'):
+        return True
+    kids = [v for _, v in ast[1:]] if ast[0] == 'struct' else [ast[1]] if ast[0] == 'annot' else ast[1:]
+    return any(_has_union_below(k, False) for k in kids)
 
 
 def _c(ast, child_sp, i):
